@@ -16,7 +16,7 @@ LEVEL = "exploration"
 RULE = (
     "case = n in 2..4 concurrent send_message callers (own ids, own timeouts) on one (read, write) pair + the server's answers as a list of "
     "(instant, caller index) in any order on a virtual-time grid around the 0.5 s poll boundaries, each a result (also the empty/falsy results {}, [], 0, "", false) or an error, as the unified or the typed envelope class + 0..2 unrelated notifications placed between answers; "
-    "n<=3 enumerated exhaustively (all answer permutations x 5 instants per answer x 3 notification patterns), n=4 drawn by Hypothesis; "
+    "the same over a real StdioClient with the answers arriving behind a burst of 0..400 notifications in 1..7 pipe reads; n<=3 enumerated exhaustively (all answer permutations x 5 instants per answer x 3 notification patterns), n=4 drawn by Hypothesis; "
     "a recording proxy logs which caller task dequeued which item; non-trivial = answer order differs from request order or a notification sits between two answers; "
     "distinct = distinct full case"
 )
@@ -34,7 +34,69 @@ INSTANTS = [10, 49, 50, 51, 90]
 FALSY: List[Any] = [{}, [], 0, "", False]
 
 
+def check_stdio(case: Dict[str, Any]) -> Outcome:
+    """the same callers over a real StdioClient (scripted child): the server's answers arrive behind a burst of k
+    notifications, everything in a few pipe reads; nobody reads the connection but the callers themselves."""
+    import json
+
+    from chuk_mcp.protocol.messages.send_message import send_message
+    from chuk_mcp.transports.stdio.stdio_client import StdioClient
+
+    from ..fakeproc import FakeProcess, patched_open_process, stdio_params
+    from ..vclock import run_virtual
+
+    out = Outcome()
+    n, k, order, reads = case["n"], case["burst"], case["order"], case.get("reads", 1)
+    results: Dict[int, Tuple[str, Any]] = {}
+
+    async def main():
+        procs: List[FakeProcess] = []
+        with patched_open_process(procs):
+            async with StdioClient(stdio_params()) as client:
+                r, w = client.get_streams()
+                proc = procs[0]
+
+                async def one(i: int):
+                    try:
+                        v = await send_message(r, w, f"m/{i}", {"i": i}, timeout=3.0, message_id=f"c{i}")
+                        results[i] = ("return", v)
+                    except BaseException as e:  # noqa
+                        results[i] = ("raise", e)
+                        if isinstance(e, asyncio.CancelledError):
+                            raise
+
+                tasks = [asyncio.ensure_future(one(i)) for i in range(n)]
+                await asyncio.sleep(0.05)
+                lines = [json.dumps({"jsonrpc": "2.0", "method": "notifications/message", "params": {"level": "info", "data": j}}) for j in range(k)]
+                lines += [json.dumps({"jsonrpc": "2.0", "id": f"c{i}", "result": {"for": f"c{i}"}}) for i in order]
+                blob = ("\n".join(lines) + "\n").encode()
+                step = max(1, len(blob) // reads)
+                for a in range(0, len(blob), step):
+                    proc.stdout.feed(blob[a : a + step])
+                    await asyncio.sleep(0)
+                await asyncio.gather(*tasks, return_exceptions=True)
+
+    try:
+        run_virtual(main)
+    except Exception as e:  # noqa
+        out.fail("stdio-burst-harness-raised", f"{type(e).__name__}: {e}")
+        return out
+    out.nontrivial = k > 0 or order != sorted(order)
+    out.classes = ("stdio-burst", f"n:{n}", f"burst:{'0' if k == 0 else ('<=100' if k <= 100 else '>100')}")
+    for i in range(n):
+        kind, val = results.get(i, ("none", None))
+        if kind == "return" and isinstance(val, dict) and val.get("for") == f"c{i}":
+            continue
+        if kind == "return":
+            out.fail("cross-talk:caller-got-anothers-response", f"stdio burst: caller {i} returned {val!r}")
+        else:
+            out.fail("lost-response:behind-a-burst-on-the-transport", f"caller {i} of {n}: its answer followed {k} notifications in {reads} read(s); ended with {val!r}")
+    return out
+
+
 def check(case: Dict[str, Any]) -> Outcome:
+    if "burst" in case:
+        return check_stdio(case)
     from chuk_mcp.protocol.messages.send_message import send_message
 
     out = Outcome()
@@ -239,13 +301,23 @@ def job_hyp(col: Collector, seed: int, tier: str, shard: int, n: int) -> None:
     hyp_run(col, seed * 1000 + shard, cases(), check, n)
 
 
-JOBS = {"exhaustive": job_exhaustive, "hyp": job_hyp}
+def job_stdio(col: Collector, seed: int, tier: str) -> None:
+    for n in (2, 3):
+        for order in itertools.permutations(range(n)):
+            for k in (0, 1, 50, 99, 100, 101, 150, 400):
+                for reads in (1, 2, 7):
+                    case = {"n": n, "burst": k, "order": list(order), "reads": reads}
+                    col.record(case, check(case))
+    col.exhaustive_parts.append("over StdioClient: 2 and 3 callers x all answer orders x burst of {0,1,50,99,100,101,150,400} notifications ahead of the answers x {1,2,7} pipe reads")
+
+
+JOBS = {"exhaustive": job_exhaustive, "hyp": job_hyp, "stdio": job_stdio}
 
 
 def jobs(tier: str):
     if tier == "quick":
-        return [("exhaustive", {"shard": s, "nshards": 10}) for s in range(10)] + [("hyp", {"shard": s, "n": 350}) for s in range(6)]
-    return [("exhaustive", {"shard": s, "nshards": 8}) for s in range(8)] + [("hyp", {"shard": s, "n": 6000}) for s in range(8)]
+        return [("exhaustive", {"shard": s, "nshards": 10}) for s in range(10)] + [("hyp", {"shard": s, "n": 350}) for s in range(5)] + [("stdio", {})]
+    return [("exhaustive", {"shard": s, "nshards": 8}) for s in range(8)] + [("hyp", {"shard": s, "n": 6000}) for s in range(8)] + [("stdio", {})]
 
 
 def shrink(signature: str, seed: int):
